@@ -427,11 +427,20 @@ def r_provenance(ctx):
         if ws and _in_cycle(I, ws[0].gid):
             if not _elementwise_loop(ctx, res, p, I, ws[0], ctx.tparam(p), Poly.atom(("param", 3)), "clone_fn"):
                 ok = False
+        dd = [e for e in I.all_effects(("DROP", "DESTROY")) if e.kind == "DESTROY" or (fx.adts.get(e["ty"].get("path", "")) or {}).get("has_drop_impl")]
+        if dd:
+            res.fail(p, "destroys-on-unwind", "clone_fn runs a destructor (%s, %s path): the destination slots are not owned by the clone function - if T::clone unwinds, "
+                     "the clones made so far are leaked with the unfinished vector, never destroyed here (a guard that destroys them changes what a panic leaves "
+                     "behind and may destroy a slot that was never written)" % (dd[0].kind if dd[0].kind == "DESTROY" else "drop of " + ty_str(dd[0]["ty"]),
+                                                                                "unwind" if dd[0].node.cleanup else "normal"), span=span_of_effect(dd[0]))
+            ok = False
         if [d for d in normal_drops(I) if ty_str(d["ty"]) == ctx.tparam(p)]:
             res.fail(p, "drop", "clone_fn drops a T in the destination (assignment instead of write)", span=ctx.span_of(p))
             ok = False
         pa = I.all_effects(("PTRADD",))
-        if len(pa) != 2 or any(x["ety"] != ctx.tparam(p) for x in pa) or any(len(as_poly(x["n"]).m) != 1 or as_poly(x["n"]).is_const() for x in pa):
+        # source and destination advance in lockstep: the same index, or the same bump
+        if len(pa) != 2 or any(x["ety"] != ctx.tparam(p) for x in pa) or as_poly(pa[0]["n"]) != as_poly(pa[1]["n"]) or \
+                not (as_poly(pa[0]["n"]) == Poly.const(1) or (len(as_poly(pa[0]["n"]).m) == 1 and not as_poly(pa[0]["n"]).is_const())):
             res.fail(p, "index", "source and destination must be indexed by the same element index", span=ctx.span_of(p))
             ok = False
         if ok:
@@ -794,9 +803,15 @@ def r_heap(ctx):
             return False
         cs = callers.get(path, set())
         return bool(cs) and all(only_via_resize(c, seen + (path,)) for c in cs)
+    drop_raw = None
+    for im in fx.impls_of("core::ops::Drop"):
+        if im["self_ty"].get("path") == "mem::heap::HeapMem":
+            drop_raw = fx.fn(im["items"][0]["path"])["path"] if fx.fn(im["items"][0]["path"]) else None
     for f in fx.fn_list:
         if not (f["path"].startswith("mem::heap") or f["path"].startswith("<mem::heap")) or f["path"].startswith(rp_raw):
             continue
+        if drop_raw and f["path"] == drop_raw:
+            continue      # the destructor's own dealloc is judged by `drop-releases`
         for b in f["blocks"]:
             tm = b["term"]
             if tm["k"] == "call" and "indirect" not in tm["callee"] and tm["callee"].get("crate") == "alloc" and tm["callee"]["name"] in ("alloc", "alloc_zeroed", "realloc", "dealloc"):
@@ -806,21 +821,36 @@ def r_heap(ctx):
                     continue
                 res.fail(f["path"], "allocator-call-site", "%s calls the allocator (%s) and is reachable other than through HeapMem::resize: the size/stride guards and layout "
                          "bookkeeping of resize do not cover it" % (f["path"], tm["callee"]["name"]), span="%s:%s" % (f["span"]["file"], tm.get("line")))
-    # Drop => resize(0)
+    # Drop releases the allocation: decided under `element size != 0` and `size != 0` (the only state that owns a block): every path through the
+    # destructor passes a dealloc of exactly the live block - through resize(0) or directly
     dp = None
     for im in fx.impls_of("core::ops::Drop"):
         if im["self_ty"].get("path") == "mem::heap::HeapMem":
             dp = im["items"][0]["path"]
     res.inst(sample={"obligation": "Drop for HeapMem releases the allocation", "function": dp})
     okd = False
-    for tt, I in ctx.arms(dp) or [] if dp else []:
-        for e in I.all_effects(("ENTER",)):
-            if e["callee"] == rp and len(e["args"]) > 1 and e["args"][1] == Poly():
+    why = "dropping HeapMem does not release its block: the allocation leaks"
+    size0 = Poly.atom(("init", (("P", 1), ("size",)), 0))
+    if dp:
+        for tt, I in ctx.arms(dp, entry_facts=[("ne0", stride0), ("ne0", size0)]) or []:
+            ds = I.all_effects(("DEALLOC",))
+            rets = I.all_effects(("RETURN",))
+            good = []
+            for d in ds:
+                l = d["layout"]
+                lsz = as_poly(l[1]) if isinstance(l, tuple) and l[:1] == ("layout",) else None
+                lal = l[2] if isinstance(l, tuple) and l[:1] == ("layout",) else None
+                if lsz == stride0 * size0 and any(isinstance(a_, tuple) and a_[0] == "lalign" for a_ in as_poly(lal).atoms()) and "mem" in repr(d["ptr"]):
+                    good.append(d)
+                else:
+                    why = "the destructor deallocates with layout %s / pointer %s, expected the live block (element size x size, element align) of self.mem" % (l, d["ptr"])
+            if good and rets and all(every_path_to(I, r.gid, lambda g: any(g == d.gid for d in good)) for r in rets) and len(good) == len(ds) \
+                    and not I.all_effects(("ALLOC", "REALLOC", "ALLOC_OTHER")):
                 okd = True
     if okd:
         res.ok()
     else:
-        res.fail(dp or "mem::heap::HeapMem", "drop-releases", "dropping HeapMem does not resize to 0: the allocation leaks")
+        res.fail(dp or "mem::heap::HeapMem", "drop-releases", why)
     # Heap::build allocates nothing
     for im in fx.impls_of("mem::MemBuilder"):
         if im["self_ty"].get("path") == "mem::heap::Heap":
@@ -1484,19 +1514,6 @@ def r_stackcap(ctx):
                     p = f[1]
                     ls = [a for a in p.atoms() if isinstance(a, tuple) and a[0] == "lsize"]
                     if ls and p == SZ - N * Poly.atom(ls[0]):
-                        ok = True
-                if f[0] == "true" and isinstance(f[1], tuple) and f[1][:2] == ("optop", "map_or"):
-                    # checked form: N.checked_mul(size).map_or(false, |bytes| bytes <= SIZE)
-                    inner = repr(f[1])
-                    clos = [g for g in fx.fn_list if g["path"].startswith(bp + "::{closure")]
-                    good_clos = False
-                    for g in clos:
-                        for tt2, I2 in ctx.arms(g["path"]) or []:
-                            for r2 in I2.all_effects(("RETURN",)):
-                                v = r2["value"]
-                                if isinstance(v, tuple) and v[:2] == ("cmp", "Le") and v[3] == SZ:
-                                    good_clos = True
-                    if "'checked', 'Mul'" in inner and "cparam" in inner and good_clos:
                         ok = True
         if ok and rets:
             res.ok()
